@@ -1,0 +1,21 @@
+// Copyright 2018-2026 opcua authors. All rights reserved.
+// Use of this source code is governed by a MIT-style license that can be
+// found in the LICENSE file.
+
+package uasc
+
+import "github.com/gopcua/opcua/ua"
+
+// SecurityPolicyURI returns the URI of the security policy the channel uses.
+// For a server side channel it is the policy of the client's last
+// OpenSecureChannel request.
+func (s *SecureChannel) SecurityPolicyURI() string {
+	return s.cfg.SecurityPolicyURI
+}
+
+// SecurityMode returns the message security mode the channel uses.
+// For a server side channel it is the mode of the client's last
+// OpenSecureChannel request.
+func (s *SecureChannel) SecurityMode() ua.MessageSecurityMode {
+	return s.cfg.SecurityMode
+}
